@@ -2,7 +2,7 @@
 import warnings
 from xml.etree import ElementTree as ET
 
-from vlib import env, drive, gen, history, build, xmlcmp
+from vlib import env, drive, gen, history, build, model, xmlcmp
 from vlib.xmlcmp import canon
 from vlib.step import Failure
 
@@ -87,7 +87,7 @@ def check_state(ro, orig_mid, orig_ro_id, where, orig_env=None):
     try:
         if ro.message_id != orig_mid:
             fail('message-id-changed', f'message_id {ro.message_id} != original {orig_mid}', orig_mid, ro.message_id)
-        if ro.ro_id != orig_ro_id:
+        if orig_ro_id is not None and ro.ro_id != orig_ro_id:
             fail('ro-id-changed', f'ro_id {ro.ro_id!r} != original {orig_ro_id!r}', orig_ro_id, ro.ro_id)
     except Exception as e:
         fail('envelope-accessor-raised', f'{type(e).__name__}: {e}')
@@ -131,7 +131,18 @@ def _judge_state(ev):
     hist = ev.case.get('history')
     first = hist[0] if hist else ev.case['ro_xml']
     r0 = ET.fromstring(first)
-    return check_state(ev.obs.ro, int(r0.find('messageID').text), r0.find('roCreate').find('roID').text,
+    orig_ro_id = r0.find('roCreate').find('roID').text
+    # the original roID is promised "for messages addressed to that running order": once a message
+    # addressed to another one has been offered, only the other invariants are judged
+    for text in (hist[1:] if hist else [ev.case['msg_xml']]):
+        try:
+            b = model.Msg(text).base
+        except Exception:
+            b = None
+        if b is None or b.findtext('roID') != orig_ro_id:
+            orig_ro_id = None
+            break
+    return check_state(ev.obs.ro, int(r0.find('messageID').text), orig_ro_id,
                        ev.obs.cls_name or 'unknown', orig_env=_envelope(r0))
 
 
@@ -165,8 +176,10 @@ def run(tier, seed, procs):
     cols = drive.pool_map(history.shard_history,
                           [(MOD, runs, steps, seed * 1000 + 500 + i,
                             {'kinds': kinds + ['roReplace', 'roMetadataReplace', 'roStorySend'],
-                             'faults': 'some', 'foreign_ro': False}) for i in range(hs)], procs)
-    # (every message is addressed to this running order: C14 speaks of the original roID for those)
+                             'faults': 'some', 'foreign_ro': i % 4 == 3}) for i in range(hs)], procs)
+    # (in three shards of four every message is addressed to this running order: C14 speaks of the original
+    # roID for those; in the fourth, messages for other running orders are offered too, refused or not, and
+    # everything but the roID is judged from then on)
     kw = dict(kinds=kinds, faults='some', rich=True, foreign_ro=False)
     shards, per = (8, 250) if quick else (16, 10000)
     cols += drive.pool_map(drive.shard_hyp_steps,
